@@ -361,6 +361,52 @@ class lodict(odict):
         return default
 
 
+    def pop(self, key, *default):
+        """
+        Make key lowercase then pop
+        """
+        return super(lodict, self).pop(key.lower(), *default)
+
+    def insert(self, index, key, val):
+        """
+        Make key lowercase then insert
+        """
+        super(lodict, self).insert(index, key.lower(), val)
+
+    def create(self, *pa, **kwa):
+        """
+        Create items but only if lowercased key not already existent
+        """
+        d = odict()
+        for a in pa:
+            if hasattr(a, 'get'): #positional arg is dictionary
+                for k in a:
+                    d[k.lower()] = a[k]
+            else: #positional arg is sequence of duples (k,v)
+                for k, v in a:
+                    d[k.lower()] = v
+
+        for k in kwa:
+            d[k.lower()] = kwa[k]
+
+        super(lodict, self).create(d)
+
+    def sift(self, fields=None):
+        """
+        Make field names lowercase then sift
+        """
+        if fields is not None:
+            fields = [field.lower() for field in fields]
+        return super(lodict, self).sift(fields)
+
+    def reorder(self, other):
+        """
+        Make keys of other lowercase then reorder
+        """
+        if not isinstance(other, odict):
+            raise ValueError('other must be an odict')
+        super(lodict, self).reorder(odict((k.lower(), other[k]) for k in other))
+
     def update(self, *pa, **kwa):
         """
         lodict.update(pa1, pa2, ...) where pa = tuple of positional args,
